@@ -110,3 +110,10 @@ Definition natural_endpoints (loc : topo_t) (p : placement) (ring : ring_t) (t :
   | SimpleStrategy rf => simple_spec rf ring t
   | NetworkTopologyStrategy dcs => nts_spec loc dcs ring t
   end.
+
+(* Murmur3Partitioner.getToken: new LongToken(normalize(hash)),  normalize(v) = v == Long.MIN_VALUE ? Long.MAX_VALUE : v *)
+Definition Long_MIN_VALUE : Z := - 9223372036854775808.
+Definition Long_MAX_VALUE : Z := 9223372036854775807.
+Definition normalize (v : Z) : Z := if v =? Long_MIN_VALUE then Long_MAX_VALUE else v.
+Definition natural_endpoints_for_hash (loc : topo_t) (p : placement) (ring : ring_t) (hash : Z) : list Z :=
+  natural_endpoints loc p ring (normalize hash).
